@@ -62,8 +62,12 @@ def gen_models(rnd, ctx):
         break
     models = {'M': M}
     # same operator names, different equations and defaults
-    A, _, _ = gen.gen_net(rnd, pool=gen.SAFE_POOL, n_nodes=rnd.choice([1, 2, 3]), max_types=2, depth=0, forbid=ctx['excluded'],
-                          edge_density=0.3)
+    for _ in range(200):
+        A, _, rA = gen.gen_net(rnd, pool=gen.SAFE_POOL, n_nodes=rnd.choice([1, 2, 3]), max_types=2, depth=0, forbid=ctx['excluded'],
+                               edge_density=0.3)
+        # history steps compile the related models vectorized as well: keep the recorded C04 findings out of them
+        if not (c04.vec_risks(A) & ctx['excluded'] or 'vec_partial_input_default' in rA):
+            break
     mnames = list(M['ops'])
     ren = {}
     for i, n in enumerate(list(A['ops'])):
@@ -107,7 +111,10 @@ def gen_models(rnd, ctx):
             rn2(s)
     rn2(S['circ'])
     models['same_structure'] = S
-    U, _, _ = gen.gen_net(rnd, pool=gen.SAFE_POOL, n_nodes=2, max_types=2, depth=0, forbid=ctx['excluded'], edge_density=0.3)
+    for _ in range(200):
+        U, _, rU = gen.gen_net(rnd, pool=gen.SAFE_POOL, n_nodes=2, max_types=2, depth=0, forbid=ctx['excluded'], edge_density=0.3)
+        if not (c04.vec_risks(U) & ctx['excluded'] or 'vec_partial_input_default' in rU):
+            break
     U2 = copy.deepcopy(U)
     U2['ops'] = {n + '_u': o for n, o in U['ops'].items()}
     for nt in U2['node_types'].values():
